@@ -108,6 +108,8 @@
         __CPROVER_ensures(VF_BREJ_FLAGS ==> (int) ctx->error == -1)                                \
         __CPROVER_ensures(VF_BREJ_PROC_O ==> (int) ctx->error == -2)                               \
         __CPROVER_ensures(VF_BREJ_COMPL_O ==> (int) ctx->error == -3)                              \
+        /* C11: an accepted call never carries an error left over from an earlier rejection */   \
+        __CPROVER_ensures(!VF_BREJ_O ==> (int) ctx->error == 0)                                    \
         __CPROVER_ensures(!VF_BREJ_O ==> ctx->total_length == VF_T0_O + len)                       \
         __CPROVER_ensures(!VF_BREJ_O ==> VF_ST(ctx) == (VF_LASTF ? VF_C : 0u))                     \
         __CPROVER_ensures((!VF_BREJ_O && !VF_LASTF) ==>                                            \
